@@ -10,7 +10,7 @@ import (
 //
 // Reference grammar (property statement; /repo/doc/control-plane.rst "ISD and AS numbering" wiki
 // formats): ISD = decimal numeral <= 65535; AS = decimal numeral <= 2^32-1, or three ':'-separated
-// groups of 1..4 hex digits (either letter case), most significant group first; ISD-AS =
+// hex numerals <= 0xffff (either letter case), most significant group first; ISD-AS =
 // ISD "-" AS; SVC = DS | CS | Wildcard, optionally followed by _A (anycast) or _M (multicast).
 
 // c46Len: the string length, an enumerated bound minlen..maxlen (one fork per length).
@@ -33,9 +33,10 @@ func c46Dec(b []byte) (v uint64, ok bool) {
 	return v, ok
 }
 
-// c46HexGroup: value of a group of 1..4 hex digits.
+// c46HexGroup: value of a group of hex digits denoting a 16-bit number (leading zeros are not
+// excluded by the property statement, as for decimal numerals). Exact for len(b) <= 15.
 func c46HexGroup(b []byte) (v uint64, ok bool) {
-	ok = len(b) >= 1 && len(b) <= 4
+	ok = len(b) >= 1 && len(b) <= 15
 	for _, c := range b {
 		d := c - '0'
 		l := (c | 0x20) - 'a'
@@ -49,6 +50,9 @@ func c46HexGroup(b []byte) (v uint64, ok bool) {
 			ok = false
 		}
 		v = v<<4 | uint64(h&0xf)
+	}
+	if v > 0xffff {
+		ok = false
 	}
 	return v, ok
 }
@@ -142,6 +146,33 @@ func VerifC46ParseAS() {
 		}
 	} else {
 		verif.Cover("as-rejected")
+	}
+}
+
+// VerifC46ParseASGroups: strings of the shape G0:G1:G2 with the group lengths given by parameters
+// g0,g1,g2 (group bytes arbitrary except ':'), to reach over-long groups beyond the length sweep.
+func VerifC46ParseASGroups() {
+	var b []byte
+	for k, pn := range []string{"g0", "g1", "g2"} {
+		if k > 0 {
+			b = append(b, ':')
+		}
+		g := verif.NondetBytes(pn, verif.Param(pn))
+		for _, c := range g {
+			verif.Assume(c != ':')
+		}
+		b = append(b, g...)
+	}
+	colon := c46Layout(b, ':')
+	as, err := ParseAS(string(b))
+	verif.Observe("parse", err == nil, uint64(as))
+	val, ok := c46RefAS(b, colon)
+	if err == nil {
+		verif.Assert("parse-as-rejects-malformed-and-out-of-range", ok)
+		verif.Assert("parse-as-value", uint64(as) == val)
+		verif.Cover("as-groups-accepted")
+	} else {
+		verif.Cover("as-groups-rejected")
 	}
 }
 
